@@ -305,10 +305,13 @@ impl<'a> Ctx<'a> {
     fn diagnose(method: &str, explains: impl Fn(Quirks) -> bool) -> Vec<String> {
         let len = format!("{method}.script_len_range_upper_bound_is_inclusive");
         let zero = format!("{method}.prefix_search_matches_scripts_with_shorter_args@search_args_end_with_zero_bytes");
-        if explains(Quirks { len_end_inclusive: true, zero_prefix: false }) {
-            vec![len]
-        } else if explains(Quirks { len_end_inclusive: false, zero_prefix: true }) {
+        // the listed key-layout finding first: when it alone explains the answer (its precondition
+        // - search args ending in zero bytes - is part of the model's quirk), nothing points at the
+        // length-range bound, even if that would happen to give the same sum for this cell set
+        if explains(Quirks { len_end_inclusive: false, zero_prefix: true }) {
             vec![zero]
+        } else if explains(Quirks { len_end_inclusive: true, zero_prefix: false }) {
+            vec![len]
         } else if explains(Quirks { len_end_inclusive: true, zero_prefix: true }) {
             vec![len, zero]
         } else {
